@@ -120,9 +120,25 @@ class FaultyRaw(io.FileIO):
             raise OSError(errno.EIO, "injected: close failed")
 
 
+_ROOTS = set()
+
+
+def _cleanup_roots():
+    # scratch directories of runs that ended early (a violation, a harness error) are removed
+    # when the worker process exits
+    for r in list(_ROOTS):
+        shutil.rmtree(r, ignore_errors=True)
+
+
+import atexit  # noqa: E402
+
+atexit.register(_cleanup_roots)
+
+
 class SimFS:
     def __init__(self):
         self.root = tempfile.mkdtemp(prefix="xgiverif-fs-", dir="/dev/shm")
+        _ROOTS.add(self.root)
         self.plan = Plan()
         self._saved = None
 
@@ -189,3 +205,4 @@ class SimFS:
 
     def destroy(self):
         shutil.rmtree(self.root, ignore_errors=True)
+        _ROOTS.discard(self.root)
